@@ -17,7 +17,9 @@ SEPS = {"plain": ":", "sp-before": " :", "sp-after": ": ", "underscores": "_:_",
         "lrm-after": ":" + LRM, "rlm-after": ":" + RLM, "sp-lrm-sp-after": ": " + LRM + " ", "us-lrm-after": ":_" + LRM}
 LEADS = {"none": "", "colon": ":", "sp-colon-sp": " : "}
 SURROUND = {"none": ("", ""), "space": (" ", " "), "underscore": ("_", "_"), "lrm": (LRM, LRM), "rlm": (RLM, RLM),
-            "space+lrm": (" " + LRM, LRM + " ")}
+            "space+lrm": (" " + LRM, LRM + " "),
+            # (wave 11) whitespace is not only ASCII: no-break space, ideographic space (pasted titles; the bundled ja site)
+            "unicode-space": ("\u3000", "\xa0")}
 DEFAULTNS = [0, 1, 6, 10, 14, 2300]  # (2300: a namespace that is 'case-sensitive' on every bundled site)
 
 
